@@ -64,6 +64,9 @@ func genPeriodUnits(r *kernel.Rng) (int64, string) {
 }
 
 type vestingWorldOpts struct {
+	// TwoSpellings: the genesis file may list one owner twice, once in lower and once in upper case (two valid spellings
+	// of one address; the file passes genesis validation)
+	TwoSpellings  bool
 	MaxAmtExp     int
 	GenesisPools  bool
 	GenesisVAccs  bool
@@ -98,7 +101,7 @@ func buildVestingWorld(r *kernel.Rng, o vestingWorldOpts) (*kernel.WorldSpec, *v
 			owner := spec.Clients[r.Intn(len(spec.Clients))]
 			dup := false
 			for _, avp := range vg.AccountVestingPools {
-				if strings.EqualFold(avp.Owner, kernel.ActorBech(owner)) {
+				if strings.EqualFold(avp.Owner, kernel.ActorBech(owner)) && !(o.TwoSpellings && avp.Owner != kernel.ActorBech(owner)) {
 					dup = true
 				}
 			}
